@@ -101,7 +101,7 @@ func TestVerifC15Obfuscators(t *testing.T) {
 		{"xor", XORObfuscator{}, true, 16},
 		{"nil", NilObfuscator{}, false, 0},
 	}
-	keys := c15KeyPairs(rng, kit.Tier(5, 40))
+	keys := c15KeyPairs(rng, kit.Tier(9, 40))
 	maxLen := 300
 	for ki, kp := range keys {
 		for n := 0; n <= maxLen; n++ {
@@ -405,11 +405,4 @@ func TestVerifC15Anypb(t *testing.T) {
 func c15Val(m proto.Message) string {
 	b, _ := proto.MarshalOptions{Deterministic: true}.Marshal(m)
 	return kit.HexN(b, 48)
-}
-
-func c15Clip(s string) string {
-	if len(s) > 160 {
-		return s[:100] + "…" + s[len(s)-40:]
-	}
-	return s
 }
